@@ -29,7 +29,8 @@ CONSTANTS
 (* Attr fields:
    origin   "app" (submitted by the local application, source dtn://node/app) or the peer that delivers it
    dst      a peer name (destination node dtn://p/x), "far" (no such neighbour), "app" (endpoint of the local agent),
-            "noagent" (an endpoint on this node nobody registered), "bcast" (the DTLSR broadcast address),
+            "noagent" (an endpoint on this node nobody registered), "self" (the node ID itself, dtn://node/: nobody registered it
+            either), "bcast" (the DTLSR broadcast address),
             "late" (dtn://late/in: on another node name, registered by a local client only when action Register happens)
    prev     peer named in the previous-node block, or "none"
    life     "long" | "short" (runs out at Advance)
@@ -79,7 +80,7 @@ Init ==
 (* world record threaded through the pipeline operators *)
 World == [st |-> st, meta |-> meta, up |-> up, failing |-> failing, own |-> own, sends |-> {}, delivered |-> {}, reports |-> {}]
 
-IsLocal(d) == d \in {"app", "noagent"} \/ (d = "late" /\ lateReg)
+IsLocal(d) == d \in {"app", "noagent", "self"} \/ (d = "late" /\ lateReg)
 (* a bundle with a creation time runs out at that time plus its lifetime, wherever it has been; one without (clock-less
    source) runs out by its age: the age it arrived with plus the time it has stayed here *)
 Expired(b) == Attr[b].life = "short" /\ late /\ (Attr[b].clockless => b \in aged)
